@@ -1,9 +1,16 @@
 mod proto;
 mod rng;
 mod ops;
+mod astproto;
+mod progs;
+mod parselayer;
 
 pub fn dispatch_answer(req: &str) -> String {
-    ops::answer(req)
+    let parts: Vec<&str> = req.split(' ').collect();
+    match parts[0] {
+        "PARSE" => parselayer::answer_parse(&parts),
+        _ => ops::answer(req),
+    }
 }
 
 fn main() {
@@ -24,6 +31,7 @@ fn main() {
         "ops-str" => ops::gen_str(&mut w, &tier, seed),
         "ops-matrix" => ops::gen_matrix(&mut w, &tier, seed),
         "ops-fmt" => ops::gen_fmt(&mut w, &tier, seed),
+        "parse" => parselayer::gen_parse(&mut w, &tier, seed),
         "replay" => ops::replay(&mut w),
         other => {
             eprintln!("unknown layer {}", other);
